@@ -887,6 +887,12 @@ func (lb *LoadBalancer) handlePassiveHealthCheck(backend *Backend, statusCode in
 		logger.Debug().Str("backend", backend.Name).Int("status", statusCode).Msg("client went away, not counted against the backend")
 		return
 	}
+	// A request that was in flight when its backend was removed ends after the removal: what
+	// it ends with is on record for the backend that is gone, not for a backend that has been
+	// registered under the same name since
+	if !lb.isRegistered(backend) {
+		return
+	}
 	// Increment failure count for this backend
 	lb.healthChecks.unhealthyBackendMu.Lock()
 	lb.healthChecks.unhealthyBackends[backend.Name]++
@@ -908,6 +914,18 @@ func (lb *LoadBalancer) handlePassiveHealthCheck(backend *Backend, statusCode in
 		lb.healthChecks.unhealthyBackends[backend.Name] = 0
 		lb.healthChecks.unhealthyBackendMu.Unlock()
 	}
+}
+
+// isRegistered reports whether this very backend (not just its name) is in the pool
+func (lb *LoadBalancer) isRegistered(backend *Backend) bool {
+	lb.mutex.RLock()
+	defer lb.mutex.RUnlock()
+	for _, b := range lb.strategy.GetBackends() {
+		if b == backend {
+			return true
+		}
+	}
+	return false
 }
 
 // responseWriter is a custom ResponseWriter that captures the status code
